@@ -603,9 +603,19 @@ static void run_endian(void)
                         if (!mon_case("%s|legacy=%d|len=%llu|frag=%d|twin", x.ck, lm >= 3, (unsigned long long)s->len, f)) continue;
                         rng_t r; rng_case(&r);
                         uint8_t *nat = malloc(s->flen), *tw = malloc(s->flen);
-                        for (int v = 0; v < 6; v++) {
+                        for (int v = 0; v < 9; v++) {
                             memcpy(nat, s->frag[f], s->flen);
                             const char *vn = "pristine";
+                            if (v == 6 || v == 7) {   /* 64-bit original length with high bits / bit 31 / bit 63 set (the query only reports it) */
+                                static const uint64_t ov[] = { 0x80000000ull, 0xc0000000ull, 0xfffff000ull, 0x1c0000000ull, 0x123456789abcdef0ull, 0xffffffffffffffffull, 0x8000000000000000ull, 0x7fffffffull, 0x100000000ull, 0x00ff00ff00ff00ffull };
+                                uint64_t o = v == 6 ? ov[(f + si + ci) % 10] : rng_u64(&r);
+                                ref_put64(nat + REF_OFF_ORIG, o); ref_hdr_reseal(nat, lm >= 3 && (f & 1)); vn = "orig_data_size edited (64-bit edge value), re-sealed";
+                            }
+                            if (v == 8) {   /* payload size / backend metadata size: only where the query does not checksum the payload */
+                                if (ct == CHKSUM_CRC32) continue;
+                                ref_put32(nat + REF_OFF_SIZE, (uint32_t)rng_u64(&r) | ((f & 1) ? 0x80000000u : 0)); ref_put32(nat + REF_OFF_BMS, (uint32_t)rng_u64(&r) | ((f & 2) ? 0x80000000u : 0));
+                                ref_hdr_reseal(nat, 0); vn = "size and backend-metadata size edited, re-sealed";
+                            }
                             if (v == 1 && P) { nat[80 + rng_below(&r, (uint32_t)P)] ^= (uint8_t)(1u << rng_below(&r, 8)); vn = "payload bit flipped"; }
                             if (v == 2) { ref_put32(nat + REF_OFF_IDX, (uint32_t)rng_u64(&r)); ref_hdr_reseal(nat, lm >= 3); vn = "idx edited, re-sealed"; }
                             if (v == 3) { ref_put32(nat + REF_OFF_BEVER, (uint32_t)rng_u64(&r)); nat[REF_OFF_BEID] = (uint8_t)rng_u64(&r); ref_hdr_reseal(nat, 0); vn = "backend id/version edited, re-sealed"; }
@@ -621,6 +631,12 @@ static void run_endian(void)
                             mon_count("evaluations", 1); mon_count("twin_pairs", 1);
                             if (v == 4) { /* both must be rejected */ if (!ref_hdr_accept(nat) && (ra != -EBADHEADER || rb != -EBADHEADER)) mon_viol("C11", "verdict-differs", "%s: native rc=%d twin rc=%d for a stale seal", vn, ra, rb); }
                             else cmp_md(vn, ra, &ma, rb, &mb);
+                            if (ra == 0) {   /* the native answer itself is what the header bytes say (literal offsets) */
+                                if (ma.idx != ref_get32(nat + REF_OFF_IDX) || ma.size != ref_get32(nat + REF_OFF_SIZE) || ma.frag_backend_metadata_size != ref_get32(nat + REF_OFF_BMS) ||
+                                    ma.orig_data_size != ref_get64(nat + REF_OFF_ORIG) || ma.chksum_type != nat[REF_OFF_CT] || ma.backend_id != nat[REF_OFF_BEID] || ma.backend_version != ref_get32(nat + REF_OFF_BEVER) ||
+                                    ma.chksum[0] != ref_get32(nat + REF_OFF_CHKSUM) || ma.chksum[7] != ref_get32(nat + REF_OFF_CHKSUM + 28))
+                                    mon_viol("C11", "native-fields-differ-from-header", "%s: the metadata query on the native fragment does not return the header's field values (idx %u size %u orig %llu ct %u be %u ver %u)", vn, ma.idx, ma.size, (unsigned long long)ma.orig_data_size, ma.chksum_type, ma.backend_id, ma.backend_version);
+                            }
                             int ha = is_invalid_fragment_header((fragment_header_t *)nat), hb = is_invalid_fragment_header((fragment_header_t *)tw);
                             if (v != 4 && ha != hb) mon_viol("C11", "header-verdict-differs", "%s: native %d twin %d", vn, ha, hb);
                             if (v == 1 && ct == CHKSUM_CRC32 && ra == 0 && rb == 0) {
@@ -735,7 +751,7 @@ static void run_validate(void)
                     int nI = in.k + in.m;
                     /* edits: -1 pristine; idx values; backend ids; versions; mismatch flag; payload flip; stale seal; twin */
                     uint32_t idxv[] = { 0, (uint32_t)(nI - 1), (uint32_t)nI, (uint32_t)(nI + 1), 0x80000000u, 0xffffffffu, (uint32_t)nJ, 31, 32, 33 };
-                    int nedits = 1 + 10 + (I == J || MO.thorough ? 256 : 24) + 4 + 4 + 5;
+                    int nedits = 1 + 10 + (I == J || MO.thorough ? 256 : 24) + 4 + 4 + 5 + 24;
                     for (int e = 0; e < nedits; e++) {
                         memcpy(g, s->frag[f], s->flen);
                         char what[96]; int stripe_only = 0;
@@ -751,7 +767,18 @@ static void run_validate(void)
                             else if (q == 1) { if (s->flen > 80) g[80 + rng_below(&r, (uint32_t)(s->flen - 80))] ^= 0x01; snprintf(what, sizeof what, "payload bit flipped"); }
                             else if (q == 2) { g[rng_below(&r, 59)] ^= 0x20; snprintf(what, sizeof what, "metadata bit flipped, stale seal"); }
                             else if (q == 3) { uint8_t t[80]; ref_hdr_twin(g, t, 0); memcpy(g, t, 80); snprintf(what, sizeof what, "opposite-endian twin"); stripe_only = 2; }
-                            else { ref_put32(g + REF_OFF_MAGIC, (uint32_t)rng_u64(&r)); snprintf(what, sizeof what, "magic randomised"); stripe_only = 2; }
+                            else if (q == 4) { ref_put32(g + REF_OFF_MAGIC, (uint32_t)rng_u64(&r)); snprintf(what, sizeof what, "magic randomised"); stripe_only = 2; }
+                            else {
+                                /* writer versions on both sides of the 1.2.0 gate and of the running version, in host order and as an
+                                 * opposite-endian twin (never valid for per-fragment validation, whatever its version) */
+                                static const uint32_t wv[] = { 0x010000, 0x010100, 0x010001, 0x0101ff, 0x010200, 0, 1, 0x020000, 0x000001, 0xffffffffu, 0x80010604u, 0x000100 };
+                                int vi = (q - 5) / 2, tw = (q - 5) & 1;
+                                uint32_t V = wv[vi] == 0 ? liberasurecode_get_version() : wv[vi] == 1 ? liberasurecode_get_version() + 1 : wv[vi];
+                                ref_put32(g + REF_OFF_LIBVER, V); ref_hdr_reseal(g, vi & 1);
+                                if (tw) { uint8_t t[80]; int lg = ref_get32(g + REF_OFF_MCRC) == crc_legacy(g, 59) && ref_get32(g + REF_OFF_MCRC) != crc_std(g, 59); ref_hdr_twin(g, t, lg); memcpy(g, t, 80); }
+                                snprintf(what, sizeof what, "writer version %08x%s", V, tw ? ", opposite-endian twin" : " re-sealed");
+                                stripe_only = 2;
+                            }
                         }
                         char kind[160];
                         if (stripe_only != 1) {
